@@ -17,7 +17,7 @@
 From Coq Require Import List Arith Bool ZArith.
 From LV Require Import Common.Cases Align.DP Msa.Profile Msa.Merge Msa.Refine Msa.MsaSpec Msa.MsaExec
   Msa.ProfileProofs Msa.MergeProofs Msa.UpdateProofs Msa.RefineProofs Msa.MsaExecProofs Msa.Examples
-  Msa.Alignments Msa.AlignmentsProofs Msa.Totality Msa.CalignOracle.
+  Msa.Alignments Msa.AlignmentsProofs Msa.Totality Msa.CalignOracle Msa.TreeOracle.
 Import ListNotations.
 Local Open Scope nat_scope.
 
@@ -222,3 +222,32 @@ Proof.
       (calign_oracle_valid num params gop md) (calign_oracle_total num params gop md H)).
 Qed.
 Print Assumptions C04_align_total_real_aligner.
+
+(* ---- the guide-tree contract is met by the models of the REAL tree builders (lead) ----
+   The tree matrices of _upgma and _neighbor (Cluster/Upgma.v, Cluster/Neighbor.v, tied to the code
+   under C09) are valid merge orders for EVERY distance matrix (C09's structure theorems). *)
+Theorem C04_real_guide_trees_meet_contract :
+  (forall (d : nat -> nat -> QArith_base.Q) (n : nat), 1 <= n ->
+     valid_merge_order n (pairs_of (Upgma.upgma_rows n d))) /\
+  (forall (m : Upgma.mat), 1 <= length m ->
+     valid_merge_order (length m) (pairs_of (Neighbor.nj_rows m))).
+Proof. exact (conj upgma_tree_valid_merge_order nj_tree_valid_merge_order). Qed.
+Print Assumptions C04_real_guide_trees_meet_contract.
+
+(* end to end inside the model: UPGMA guide tree on any distances + the real profile aligner with any
+   derived numeric parameters: progressive / library alignment of non-empty sequences always returns
+   and the result is rectangular, lossless, order-preserving and duplicate-consistent *)
+Theorem C04_align_total_real :
+  forall (params : mat num -> mat num -> Calign.cin) (gop : QArith_base.Q) (md : Calign.mode),
+    md <> Calign.Local ->
+  forall (cf : config) (d : nat -> nat -> QArith_base.Q),
+    config_ok cf -> Forall (fun t => t <> []) (cf_tokens cf) -> 1 <= height_of cf ->
+    exists st, align (calign_oracle num params gop md) cf (pairs_of (Upgma.upgma_rows (height_of cf) d)) = Some st
+               /\ state_ok cf st.
+Proof.
+  exact (fun params gop md H cf d CO NE Hh =>
+    align_total (calign_oracle num params gop md) cf (pairs_of (Upgma.upgma_rows (height_of cf) d))
+      (calign_oracle_valid num params gop md) (calign_oracle_total num params gop md H) CO NE
+      (upgma_tree_valid_merge_order d (height_of cf) Hh)).
+Qed.
+Print Assumptions C04_align_total_real.
